@@ -89,12 +89,15 @@ def handle (inp out : Sexp) : CaseResult :=
         (if p.defs.any (fun d => match d.spec with | .other => true | _ => false) then ["has-nonseq-def"] else []) ++
         (if p.body.any (fun i => match i with | .other _ => true | _ => false) then ["has-other-instr"] else []) ++
         (if inputHasExtras inp then ["extras"] else [])
-      { -- BOTH entry points must return what the model computes; the repeated-call flag must be the model's
-        agree := m == some obs.plain && m == some obs.mapped && obs.again == again,
-        specOk := specPlain && specMapped && obs.fullsame && obs.again && obs.errfmt,
+      -- BOTH entry points must return what the model computes; the repeated-call flag must be the model's
+      let agree := m == some obs.plain && m == some obs.mapped && obs.again == again
+      let specOk := specPlain && specMapped && obs.fullsame && obs.again && obs.errfmt
+      { agree := agree,
+        specOk := specOk,
         nontrivial := p.body.any (isSelectedInvocation p.defs sel),
         tags := tags,
-        detail := s!"model={repr m} again={again} impl={out}" }
+        -- only built on failure (the structure is strict)
+        detail := if agree && specOk then "" else s!"model={repr m} again={again} impl={out}" }
 
 end QV.C20
 
